@@ -1,6 +1,7 @@
 /-
   C06 — Documented parameters, bodies and responses equal the declared method signature.
 -/
+import Gleece.Model.Reduce
 import Gleece.Model.IR
 import Gleece.Lemmas.Assoc
 import Gleece.Lemmas.Split
@@ -101,5 +102,29 @@ theorem valueType_cases (r : Route) :
 example : isFieldRequired (appendRequired "gt=1".toList false false) = true := by decide +kernel
 example : isFieldRequired (appendRequired "gt=1".toList true false) = false := by decide +kernel
 example : isFieldRequired (appendRequired "notrequired".toList true false) = false := by decide +kernel
+
+
+section Reduced
+open Gleece.Reduce Gleece.Validate
+
+/-- **C06 — requiredness after reduction**: for every written validator string, a reduced (non-context)
+    parameter validates as required iff it is a non-pointer, a path parameter, or was written `required`. -/
+theorem reduced_param_required (meth : List Annot) (p : MParam) (r : RParam) (a : Annot) (loc : PassedIn)
+    (hctx : isContextType p.type = false)
+    (ha : findFirstByValue meth p.name = some a) (hl : passedInOf meth p.name = some (.ok loc))
+    (h : reduceParam meth p = some r) :
+    ∃ written : String, isFieldRequired r.validator.toList =
+      (!(p.type.startsWith "*") || decide (loc = .path) || isFieldRequired written.toList) := by
+  unfold reduceParam at h
+  simp only [hctx, Bool.false_eq_true, if_false, ha, hl] at h
+  split at h
+  · simp at h
+  · simp only [Option.some.injEq] at h
+    subst h
+    refine ⟨strProp a "validate", ?_⟩
+    simp only [mkParam, String.toList_ofList]
+    exact required_rule _ _ _
+
+end Reduced
 
 end Gleece.IR
